@@ -1,0 +1,24 @@
+package analyzer
+
+import (
+	"sort"
+
+	"github.com/juev/hledger-lsp/internal/ast"
+	"github.com/juev/hledger-lsp/internal/include"
+)
+
+// filesInPathOrder returns the included journals sorted by file path, so that
+// lists built from them do not depend on Go's randomized map iteration order.
+func filesInPathOrder(resolved *include.ResolvedJournal) []*ast.Journal {
+	paths := make([]string, 0, len(resolved.Files))
+	for path := range resolved.Files {
+		paths = append(paths, path)
+	}
+	sort.Strings(paths)
+
+	journals := make([]*ast.Journal, 0, len(paths))
+	for _, path := range paths {
+		journals = append(journals, resolved.Files[path])
+	}
+	return journals
+}
